@@ -18,7 +18,7 @@ META = {
              "distinct values and >=1 cell different from the stored common; distinct by content hash of the case"),
     "require": {"quick": ["class:rowscan_shape", "class:mapping=many_to_one", "class:common=absent",
                           "class:alphabet=neg", "class:alphabet=b63", "class:counts=given", "class:back=mapping",
-                          "class:n=0", "class:ndim=2"],
+                          "class:n=0", "class:ndim=2", "class:layout=F", "class:layout=strided", "class:layout=list"],
                 "thorough": ["class:rowscan_shape", "class:mapping=many_to_one", "class:common=absent",
                              "class:alphabet=neg", "class:alphabet=b63", "class:counts=given", "class:back=mapping",
                              "class:n=0", "class:ndim=2", "class:n>=20000"]},
@@ -137,7 +137,10 @@ def make_case(rng, kind):
         common, ccls = int(vals[0]), "absent"
     counts = rng.random() < 0.4
     back = gen.pick(rng, BACK_CLASSES)
-    return {"a": a, "common": common, "common_class": ccls, "mapping": mapping, "mapping_class": mcls,
+    layout = gen.wpick(rng, [("C", 6), ("F", 1), ("strided", 1), ("list", 1)])
+    if ndim == 2 and n and rng.random() < 0.02 and common is not None and mapping is None:
+        a = a[:, :0]          # a (N, 0) array: no cells at all
+    return {"layout": layout, "a": a, "common": common, "common_class": ccls, "mapping": mapping, "mapping_class": mcls,
             "counts": bool(counts), "back": back, "alphabet": acls, "dist": dist}
 
 
@@ -214,9 +217,22 @@ def judge(ctx, case):
 
     if present and max(abs(present[0]), abs(present[-1])) >= 2 ** 31 and not case["counts"] and a.size <= 5000:
         ctx.inflight(case)
+    # memory layout of the argument (the content is the same)
+    layout = case.get("layout", "C")
+    if layout == "F":
+        arg = numpy.asfortranarray(a)
+    elif layout == "strided" and a.dtype != object:
+        big = numpy.zeros((2 * a.shape[0],) + a.shape[1:], dtype=a.dtype)
+        big[::2] = a
+        arg = big[::2]
+    elif layout == "list" and a.dtype != object and a.size:
+        arg = a.tolist()
+    else:
+        arg = a.copy()
+    ctx.count("class:layout=" + layout)
     pr = probe()
     pr.arm()
-    idx = iindex.from_array(a.copy(), **kw)
+    idx = iindex.from_array(arg, **kw)
     for lab in pr.labels():
         ctx.count(lab)
     ctx.inflight(None)
